@@ -67,3 +67,116 @@ Theorem guard_bits_distinct i j : guard_word i = guard_word j -> guard_bit i = g
 Proof.
   unfold guard_word, guard_bit. intros H1 H2. rewrite (Nat.div_mod i 32), (Nat.div_mod j 32) by lia. rewrite H1, H2. reflexivity.
 Qed.
+
+(* ================= string literals ================= *)
+Open Scope N_scope.
+Definition forallN (f : N -> bool) (n : N) : bool := N.recursion true (fun i acc => acc && f i) n.
+Lemma forallN_spec f n : forallN f n = true -> forall i, i < n -> f i = true.
+Proof.
+  unfold forallN. induction n as [|n IH] using N.peano_ind; intros H i Hi; [lia|].
+  rewrite N.recursion_succ in H; [|reflexivity|intros ? ? -> ? ? ->; reflexivity]. apply andb_prop in H. destruct H as [H1 H2].
+  destruct (N.eq_dec i n) as [->|Ne]; [exact H2|apply IH; [exact H1|lia]].
+Qed.
+
+Definition oct_check (c : N) : bool :=
+  match oct3 c with
+  | [d1; d2; d3] => is_oct d1 && is_oct d2 && is_oct d3 && N.eqb ((d1 - 48) * 64 + (d2 - 48) * 8 + (d3 - 48)) c
+  | _ => false
+  end.
+Lemma oct_all : forallN oct_check 512 = true.
+Proof. vm_compute. reflexivity. Qed.
+
+Definition hex_check (a : N) : bool :=
+  match hex4 a with
+  | [h1; h2; h3; h4] =>
+      match hexval h1, hexval h2, hexval h3, hexval h4 with
+      | Some v1, Some v2, Some v3, Some v4 => N.eqb (((v1 * 16 + v2) * 16 + v3) * 16 + v4) a
+      | _, _, _, _ => false
+      end
+  | _ => false
+  end.
+Lemma hex_all : forallN hex_check 65536 = true.
+Proof. vm_compute. reflexivity. Qed.
+
+Lemma hexn4 a rest acc : a < 65536 -> hexn 4 (hex4 a ++ rest) acc = Some (acc * 65536 + a, rest).
+Proof.
+  intros H. pose proof (forallN_spec _ _ hex_all a H) as C. unfold hex_check in C.
+  destruct (hex4 a) as [|h1 [|h2 [|h3 [|h4 [|? ?]]]]]; try discriminate.
+  destruct (hexval h1) as [v1|] eqn:E1; [|discriminate]. destruct (hexval h2) as [v2|] eqn:E2; [|discriminate].
+  destruct (hexval h3) as [v3|] eqn:E3; [|discriminate]. destruct (hexval h4) as [v4|] eqn:E4; [|discriminate].
+  apply N.eqb_eq in C. cbn [app hexn]. rewrite E1, E2, E3, E4. f_equal. f_equal. lia.
+Qed.
+
+Lemma hexn_split a b l acc : hexn (a + b) l acc = match hexn a l acc with Some (v, r) => hexn b r v | None => None end.
+Proof.
+  revert l acc. induction a as [|a IH]; intros l acc; cbn [Nat.add hexn]; [reflexivity|].
+  destruct l as [|c r]; [reflexivity|]. destruct (hexval c); [apply IH|reflexivity].
+Qed.
+Lemma hexn8 a rest : a < 4294967296 -> hexn 8 (hex8 a ++ rest) 0 = Some (a, rest).
+Proof.
+  intros H. unfold hex8. rewrite <- app_assoc.
+  assert (H1 : a / 65536 < 65536) by (apply N.div_lt_upper_bound; lia).
+  assert (H2 : a mod 65536 < 65536) by (apply N.mod_upper_bound; lia).
+  change 8%nat with (4 + 4)%nat. rewrite hexn_split, (hexn4 _ _ _ H1), (hexn4 _ _ _ H2). f_equal. f_equal.
+  pose proof (N.div_mod a 65536 ltac:(lia)). lia.
+Qed.
+
+Definition valid_scalar (c : N) : Prop := c < 55296 \/ (57344 <= c /\ c <= 1114111).
+
+Lemma is_oct_false_of c : ~ (48 <= c <= 55) -> is_oct c = false.
+Proof. unfold is_oct. intros H. destruct (N.leb_spec 48 c), (N.leb_spec c 55); cbn; auto; lia. Qed.
+
+(* one character: the lexer reads back exactly that character and continues with the rest, whatever follows *)
+Lemma lex_spell_char c rest f : valid_scalar c -> lex (S f) (spell_char c ++ rest) = option_map (cons c) (lex f rest).
+Proof.
+  intros V. unfold spell_char.
+  destruct (N.eqb_spec c 34) as [->|N34]; [reflexivity|].
+  destruct (N.eqb_spec c 92) as [->|N92]; [reflexivity|].
+  destruct (N.eqb_spec c 10) as [->|N10]; [reflexivity|].
+  destruct (N.eqb_spec c 9) as [->|N9]; [reflexivity|].
+  destruct (N.eqb_spec c 13) as [->|N13]; [reflexivity|].
+  assert (Hoct : c < 512 -> lex (S f) ((92 :: oct3 c) ++ rest) = option_map (cons c) (lex f rest)).
+  { intros Hc. pose proof (forallN_spec _ _ oct_all c Hc) as C. unfold oct_check in C.
+    destruct (oct3 c) as [|d1 [|d2 [|d3 [|? ?]]]]; try discriminate.
+    apply andb_prop in C. destruct C as [C C4]. apply andb_prop in C. destruct C as [C C3]. apply andb_prop in C. destruct C as [C1 C2].
+    apply N.eqb_eq in C4. cbn [app lex]. change (92 =? 92) with true. cbn match. rewrite C1, C2, C3, C4. reflexivity. }
+  destruct (N.ltb_spec c 32) as [L32|G32]; cbn [orb].
+  - apply Hoct. lia.
+  - destruct (N.eqb_spec c 127) as [->|N127]; [apply Hoct; lia|].
+    destruct (N.ltb_spec c 127) as [L127|G127].
+    + (* printable ASCII, not a quote, not a backslash *)
+      cbn [app lex]. destruct (N.eqb_spec c 92); [contradiction|]. destruct (N.eqb_spec c 34); [contradiction|]. destruct (N.eqb_spec c 10); [contradiction|]. reflexivity.
+    + destruct (N.ltb_spec c 160) as [L160|G160]; [apply Hoct; lia|].
+      assert (Hu : ucn_ok c = true).
+      { unfold ucn_ok, valid_scalar in *. destruct (N.leb_spec 160 c); [|lia]. cbn [orb].
+        destruct (N.leb_spec 55296 c), (N.leb_spec c 57343), (N.leb_spec c 1114111); cbn; auto; lia. }
+      destruct (N.ltb_spec c 65536) as [L16|G16].
+      * cbn [app lex]. change (92 =? 92) with true. cbn match. change (is_oct 117) with false. cbn match. change (117 =? 117) with true. cbn match.
+        rewrite (hexn4 c rest 0 L16). rewrite N.mul_0_l, N.add_0_l. rewrite Hu. reflexivity.
+      * cbn [app lex]. change (92 =? 92) with true. cbn match. change (is_oct 85) with false. cbn match. change (85 =? 117) with false. cbn match. change (85 =? 85) with true. cbn match.
+        rewrite (hexn8 c rest) by (unfold valid_scalar in V; lia). rewrite Hu. reflexivity.
+Qed.
+
+Lemma lex_fuel_spell : forall s (f : nat), Forall valid_scalar s -> (length s < f)%nat -> lex f (spell s) = Some s.
+Proof.
+  unfold spell. induction s as [|c r IH]; intros f V L.
+  - destruct f; [cbn in L; lia|reflexivity].
+  - destruct f as [|f]; [cbn in L; lia|]. inversion V as [|? ? Vc Vr]; subst. cbn [flat_map].
+    rewrite (lex_spell_char c _ f Vc). rewrite (IH f Vr) by (cbn in L; lia). reflexivity.
+Qed.
+
+Lemma spell_char_nonempty c : (0 < length (spell_char c))%nat.
+Proof.
+  unfold spell_char. repeat match goal with |- context [if ?b then _ else _] => destruct b end; cbn; lia.
+Qed.
+Lemma spell_length s : (length s <= length (spell s))%nat.
+Proof. unfold spell. induction s as [|c r IH]; cbn; [lia|]. rewrite app_length. pose proof (spell_char_nonempty c). lia. Qed.
+
+(* FULL statement: whatever the source string (any sequence of Unicode scalar values), the literal written into the header is read by
+   a C++17 lexer as exactly that string *)
+Theorem literal_denotes_source s : Forall valid_scalar s -> read_literal (spell s) = Some s.
+Proof. intros V. unfold read_literal. apply lex_fuel_spell; [exact V|]. pose proof (spell_length s). lia. Qed.
+
+(* what was wrong before (F9): Rust's Debug spelling is not C++ for control characters, and means another string for NUL + digit *)
+Theorem rust_debug_refuted : read_literal (rust_debug [1]) = None /\ read_literal (rust_debug [0; 49]) = Some [1] /\ read_literal (rust_debug [127]) = None.
+Proof. vm_compute. repeat split; reflexivity. Qed.
